@@ -13,6 +13,8 @@ CONSTANTS
   PStates = {"created", "dropped"}
   Concrete <- NamesPlain
   Now = 100
+  Skews = {"behind"}
+  ClampLocal = FALSE
   FixStaleDb = FALSE
   LiveDbGuard = FALSE
   SafeKeys = FALSE
